@@ -69,7 +69,49 @@ func c12Images(r *ev.Run) []c12Image {
 		}
 		r.Validated(1)
 		r.StateBytes(img.Bytes)
-		out = append(out, c12Image{desc: map[string]interface{}{"family": "T1+T2+T3", "page_size": 512, "rows": fmt.Sprint(c), "pages": img.Pages, "depth": fmt.Sprint(img.Depth)}, img: img.Bytes, ops: c12Ops()})
+		ops := c12Ops()
+		// the lookups once more for a row that spills to overflow pages (the reads of its chain come after the walk)
+		for _, row := range img.TableRows["t1"] {
+			spilled := false
+			for _, v := range row.Vals {
+				switch x := v.(type) {
+				case string:
+					spilled = spilled || len(x) > 480
+				case []byte:
+					spilled = spilled || len(x) > 480
+				}
+			}
+			if !spilled {
+				continue
+			}
+			id := row.Rowid
+			cols := []string{"a", "b", "c", "e"}
+			ops = append(ops,
+				highOp("SelectRowid(t1,spilled row)", false, func(e *Env, c *collector) error {
+					r, err := e.H.SelectRowid("t1", id, cols...)
+					if r != nil {
+						c.add(CopyRow(r))
+					}
+					return err
+				}),
+				highOp("PKSelect(t1,spilled row)", false, func(e *Env, c *collector) error {
+					return e.H.PKSelect("t1", sqlittle.Key{id}, func(r sqlittle.Row) { c.add(CopyRow(r)) }, cols...)
+				}),
+				lowOp("Table.Rowid(t1,spilled row)", false, func(e *Env, c *collector) error {
+					tb, err := e.D.Table("t1")
+					if err != nil {
+						return err
+					}
+					rec, err := tb.Rowid(id)
+					if rec != nil {
+						c.add(CopyRec(rec))
+					}
+					return err
+				}),
+			)
+			break
+		}
+		out = append(out, c12Image{desc: map[string]interface{}{"family": "T1+T2+T3", "page_size": 512, "rows": fmt.Sprint(c), "pages": img.Pages, "depth": fmt.Sprint(img.Depth)}, img: img.Bytes, ops: ops})
 	}
 	return out
 }
@@ -91,7 +133,7 @@ func isPrefix(got, full [][]interface{}) bool {
 }
 
 func runC12(r *ev.Run) {
-	r.Rule = "every public read operation (low level scans/searches, the six high level selects, schema calls, the driver query) on T1+T2+T3 images (multi-level trees, overflow chains, nested index->table lookups) on a cold and on a warm handle x a fault at the k-th page read for every k=1..reads, as I/O error and as short read; RLock failure; a second fault at every later read wherever the operation kept reading after the first; oracle: error non-nil and delivered rows are a prefix of the fault-free rows. non-trivial = runs in which the fault was reached"
+	r.Rule = "every public read operation (low level scans/searches, the six high level selects, the rowid lookups also of a row that spills to overflow pages, schema calls, the driver query) on T1+T2+T3 images (multi-level trees, overflow chains, nested index->table lookups) on a cold and on a warm handle x a fault at the k-th page read for every k=1..reads, as I/O error and as short read; RLock failure; a second fault at every later read wherever the operation kept reading after the first; oracle: error non-nil and delivered rows are a prefix of the fault-free rows. non-trivial = runs in which the fault was reached"
 	images := c12Images(r)
 	type job struct {
 		im   *c12Image
